@@ -180,7 +180,8 @@ TakeSnapshot(cs00, g, e) ==
         nseq  == 1 + (IF gs.stored = {} THEN 0 ELSE CHOOSE m \in {x.seq : x \in gs.stored} : \A y \in gs.stored : y.seq <= m)
         st1   == {s \in gs.stored : ~(s.epoch = entry.epoch /\ s.commit = e)}
                    \cup {[epoch |-> entry.epoch, commit |-> e, seq |-> nseq, snap |-> SnapOf(gs), born |-> cs.now]}
-        q1    == Append(cs.q[g], entry)
+        \* one queue entry per stored snapshot: re-applying the same commit at the same epoch replaces its entry
+        q1    == Append(SelectSeq(cs.q[g], LAMBDA x : ~(x.epoch = entry.epoch /\ x.commit = e)), entry)
         drop  == IF Len(q1) > Retention THEN Len(q1) - Retention ELSE 0
         gone  == {<<q1[i].epoch, q1[i].commit>> : i \in 1..drop}
         q2    == SubSeq(q1, drop + 1, Len(q1))
